@@ -1145,20 +1145,24 @@ struct SessionPass {
     max_ops: usize,
     configs: Vec<Cfg>,
     ends: Vec<End>,
+    /// run before the (possibly capped) history passes
+    early: bool,
 }
 
 fn session_passes(ctx: &Ctx) -> Vec<SessionPass> {
     let on = Cfg { wal: true, ..Cfg::DEFAULT };
     let ends = vec![End::Drop, End::Close, End::Checkpoint];
     let small = vec![Op::Ins(1), Op::Ins(2), Op::Upd(1), Op::Del(1), Op::Prep(2, 3)];
+    let base = SessionPass { name: "session", vars: vec![Var::PkIdx], dml: small.clone(), max_ops: 3, configs: vec![on, Cfg { autoflush: 1, ..on }, Cfg::DEFAULT], ends: vec![End::Drop, End::Close], early: true };
     if ctx.quick() {
-        vec![SessionPass { name: "session", vars: vec![Var::Pk, Var::PkIdx], dml: small, max_ops: 3, configs: vec![on, Cfg { autoflush: 1, ..on }, Cfg::DEFAULT], ends }]
+        vec![base]
     } else {
         let wide = vec![Op::Ins(1), Op::Ins(2), Op::Ins2(2, 3), Op::Upd(1), Op::UpdAll, Op::Del(1), Op::Trunc, Op::Prep(2, 3), Op::TxnIns(3)];
         let cfgs = vec![on, Cfg { autoflush: 1, ..on }, Cfg { sync: 1, ..on }, Cfg { threshold: 1, ..on }, Cfg { sync: 1, autoflush: 1, threshold: 2, ..on }, Cfg { sync: 1, ..Cfg::DEFAULT }, Cfg::DEFAULT];
         vec![
-            SessionPass { name: "session", vars: ALL_VARS.to_vec(), dml: wide, max_ops: 3, configs: cfgs, ends: ends.clone() },
-            SessionPass { name: "session-deep", vars: vec![Var::Pk, Var::PkIdx], dml: small, max_ops: 4, configs: vec![on, Cfg { autoflush: 1, ..on }, Cfg::DEFAULT], ends },
+            base,
+            SessionPass { name: "session-wide", vars: ALL_VARS.to_vec(), dml: wide, max_ops: 3, configs: cfgs, ends: ends.clone(), early: false },
+            SessionPass { name: "session-deep", vars: vec![Var::Pk, Var::PkIdx], dml: small, max_ops: 4, configs: vec![on, Cfg { autoflush: 1, ..on }, Cfg::DEFAULT], ends, early: false },
         ]
     }
 }
@@ -1488,7 +1492,7 @@ impl Check for C42 {
         rep.bound("large_schema", json!({"tables": BIG_TABLES, "indexes": BIG_TABLES, "lru_capacity": 64, "scenarios": large_schema_cases().iter().map(|(c, o)| format!("{}/{}", c.label(), o)).collect::<Vec<_>>()}));
         // large-schema scenarios first (few, cheap), split across workers
         for (i, (cfg, order)) in large_schema_cases().into_iter().enumerate() {
-            if ctx.mine(1_000_000 + i as u64) {
+            if ctx.mine(1_000_000 + i as u64) && ctx.opt("only").map(|o| o == "large-schema").unwrap_or(true) {
                 large_schema(ctx, rep, cfg, order);
             }
         }
@@ -1512,6 +1516,15 @@ impl Check for C42 {
             return;
         }
         let mut w = Walker { eng: Engine::new(ctx), rep, case_idx: 0, capped: false };
+        let sps = session_passes(ctx);
+        for (i, sp) in sps.iter().enumerate() {
+            if !sp.early || w.capped || ctx.opt("only").map(|o| o != sp.name).unwrap_or(false) {
+                continue;
+            }
+            if !run_session_pass(ctx, &mut w.eng, w.rep, sp, 2_000_000 + 100_000 * i as u64) {
+                w.capped = true;
+            }
+        }
         for pass in &ps {
             // development aid: `--opt only=<pass name>` restricts the run to one pass
             if ctx.opt("only").map(|o| o != pass.name).unwrap_or(false) {
@@ -1522,17 +1535,12 @@ impl Check for C42 {
                 w.dfs(pass, var, &mut ops, &BTreeSet::new(), false);
             }
         }
-        if !w.capped {
-            let mut base = 2_000_000u64;
-            for sp in session_passes(ctx) {
-                if ctx.opt("only").map(|o| o != sp.name).unwrap_or(false) {
-                    continue;
-                }
-                if !run_session_pass(ctx, &mut w.eng, w.rep, &sp, base) {
-                    w.capped = true;
-                    break;
-                }
-                base += 100_000;
+        for (i, sp) in sps.iter().enumerate() {
+            if sp.early || w.capped || ctx.opt("only").map(|o| o != sp.name).unwrap_or(false) {
+                continue;
+            }
+            if !run_session_pass(ctx, &mut w.eng, w.rep, sp, 2_000_000 + 100_000 * i as u64) {
+                w.capped = true;
             }
         }
         let (runs, shrink_runs, wf) = (w.eng.runs, w.eng.shrink_runs, w.eng.runs_with_wal_frames);
